@@ -42,6 +42,17 @@ func c01Replacements() []*yaml.Node {
 	}
 }
 
+// lintFormatGuarded lints with a -format template (the other code path that renders diagnostics)
+func lintFormatGuarded(name, src string) (pmsg string, to bool) {
+	return guarded(20*time.Second, func() {
+		l, err := actionlint.NewLinter(nopWriter{}, &actionlint.LinterOptions{Shellcheck: "", Pyflakes: "", Format: "{{json .}}"})
+		if err != nil {
+			return
+		}
+		l.Lint(name, []byte(src), nil)
+	})
+}
+
 func lintGuarded(name, src string) (errs []*actionlint.Error, lerr error, pmsg string, to bool) {
 	pmsg, to = guarded(20*time.Second, func() { errs, lerr = lintSrc(name, src) })
 	return
@@ -264,7 +275,7 @@ func runC01(c *ctx, r *Report) error {
 		restore()
 	}
 	// (2) byte-level mutations
-	special := []string{"\x00", "\xff", "\xc3", "\n", "\t", ":", "- ", "&a ", "*a", "!!float ", "${{", "}}", "'", "\"", "|", ">", "[", "{", "#", "%", "\r\n", "\ufeff", "? ", "<<: "}
+	special := []string{"\x00", "\xff", "\xc3", "\n", "\t", ":", "- ", "&a ", "*a", "!!float ", "${{", "}}", "'", "\"", "|", ">", "[", "{", "#", "%", "\r\n", "\r", "\u0085", "\u2028", "\ufeff", "? ", "<<: "}
 	for i := 0; i < nMut; i++ {
 		tg := targets[rng.Intn(len(targets))]
 		b := []byte(tg.src)
@@ -309,6 +320,9 @@ func runC01(c *ctx, r *Report) error {
 			if pmsg != "" || to {
 				report(tg.channel, "byte mutation", src, pmsg, to)
 			}
+			if pmsg, to := lintFormatGuarded("w.yaml", src); pmsg != "" || to {
+				report(tg.channel, "byte mutation, -format '{{json .}}'", src, pmsg, to)
+			}
 		} else {
 			write(tg.rel, src)
 			pmsg, to, _ := lintProject()
@@ -319,6 +333,43 @@ func runC01(c *ctx, r *Report) error {
 		}
 	}
 	restore()
+	// (2b) rendering: the diagnostics of the project's own test workflows (most of them have some) are printed in the
+	// default way and through a -format template after one of their line breaks was replaced by a lone CR / NEL / LS
+	// (YAML counts these as line breaks, the snippet printer's line scanner does not: columns no longer fit the lines)
+	{
+		n2b := 0
+		for _, src := range pwCorpus() {
+			var nl []int
+			for i := 0; i < len(src); i++ {
+				if src[i] == '\n' {
+					nl = append(nl, i)
+				}
+			}
+			if len(nl) == 0 {
+				continue
+			}
+			k := 2
+			if !c.quick {
+				k = 12
+			}
+			for j := 0; j < k; j++ {
+				at := nl[rng.Intn(len(nl))]
+				for _, br := range []string{"\r", "\u0085", "\u2028"} {
+					m := src[:at] + br + src[at+1:]
+					r.Evaluations++
+					n2b++
+					r.hist("render:line-break-variant")
+					if _, _, pmsg, to := lintGuarded("w.yaml", m); pmsg != "" || to {
+						report("workflow", "line break replaced by "+strconv.Quote(br)+", default output", m, pmsg, to)
+					}
+					if pmsg, to := lintFormatGuarded("w.yaml", m); pmsg != "" || to {
+						report("workflow", "line break replaced by "+strconv.Quote(br)+", -format '{{json .}}'", m, pmsg, to)
+					}
+				}
+			}
+		}
+		r.Notes = append(r.Notes, fmt.Sprintf("(2b) %d corpus workflows with a line break replaced by CR / NEL / LS, rendered in default and -format mode", n2b))
+	}
 	// (4) references to local callees: every spelling of a `uses:` spec (well-formed, with @ref, missing, a directory,
 	// unparseable, with a placeholder, path tricks), each used by TWO jobs / TWO steps of one file and by a second file
 	// linted in the same call (the metadata caches see every spec several times, hit and miss, concurrently)
